@@ -144,6 +144,29 @@ def _char_lit_end(src, i):
     return -1
 
 
+def desugar_enumerate(text: str, rwlog) -> str:
+    """R5d: `for (i, x) in E.iter().enumerate() { BODY }` -> `let mut i: usize = 0; while i < E.len() { let x = &E[i]; { BODY } i += 1; }`
+    (the meaning of enumerate over a slice iterator). Refused (left as is, so Verus reports the unsupported construct and the unit is
+    undecided) when BODY contains `continue`, which would skip the increment."""
+    n = 0
+    while True:
+        mm = mask(text)
+        mo = re.search(r'\bfor\s*\(\s*(\w+)\s*,\s*(\w+)\s*\)\s*in\s+([\w\.]+?)\.iter\(\)\.enumerate\(\)\s*\{', mm)
+        if not mo:
+            break
+        ob = mo.end() - 1
+        cb = match_brace(mm, ob)
+        body = text[ob + 1:cb]
+        if re.search(r'\bcontinue\b', mask(body)):
+            break
+        i, x, e = mo.group(1), mo.group(2), mo.group(3)
+        new = f"let mut {i}: usize = 0; while {i} < {e}.len() {{ let {x} = &{e}[{i}]; {{{body}}} {i} += 1; }}"
+        text = text[:mo.start()] + new + text[cb + 1:]
+        n += 1
+    if n:
+        rwlog.append(dict(rule='R5d', what='`for (i, x) in s.iter().enumerate() { .. }` desugared to the indexed while loop', applied=n))
+    return text
+
 def match_brace(m: str, open_idx: int) -> int:
     """index of the brace closing the one at open_idx (masked text)."""
     assert m[open_idx] in '{([', m[open_idx]
@@ -762,6 +785,8 @@ def _emit_fn(g, meta, tmpl, rel, src, m, ctx, name, kv, subs):
         if kind == 'rw':
             rule, rx, repl, mn = parse_rw(arg)
             text = apply_rw(text, rule, rx, repl, mn, rwlog)
+    if kv.get('enumerate') == '1':
+        text = desugar_enumerate(text, rwlog)
     if kv.get('attrs') != 'keep':
         text = strip_attrs(text, rwlog)
     if INLINE['names']:
